@@ -26,6 +26,23 @@ pub struct TypeInfo {
     pub copy: bool,
 }
 
+/// visitor for the Copy types (needed by the BesselDual trait)
+pub trait TyVisitorCopy {
+    type Out;
+    fn visit<T>(self, dims: &[usize]) -> Self::Out
+    where
+        T: Ty + DualNum<<T as Ty>::F> + Copy + BesselDual;
+}
+
+macro_rules! bessel_arm {
+    (false, true, $v:ident, $t:ty, $dims:ident) => {
+        $v.visit::<$t>($dims)
+    };
+    ($a:tt, $b:tt, $v:ident, $t:ty, $dims:ident) => {
+        panic!("HARNESS-BUG: type has no BesselDual implementation")
+    };
+}
+
 pub trait TyVisitor {
     type Out;
     fn visit<T>(self, dims: &[usize]) -> Self::Out
@@ -34,13 +51,20 @@ pub trait TyVisitor {
 }
 
 macro_rules! registry {
-    ($( ($id:expr, $name:literal, $t:ty, $kind:ident, $ndyn:expr, $is32:expr, $order:expr, $opt:expr, $copy:expr) ),* $(,)?) => {
+    ($( ($id:expr, $name:literal, $t:ty, $kind:ident, $ndyn:expr, $is32:tt, $order:expr, $opt:expr, $copy:tt) ),* $(,)?) => {
         pub const TYPES: &[TypeInfo] = &[
             $( TypeInfo { name: $name, kind: Kind::$kind, ndyn: $ndyn, is32: $is32, order: $order, optional: $opt, copy: $copy } ),*
         ];
         pub fn dispatch<V: TyVisitor>(tid: usize, dims: &[usize], v: V) -> V::Out {
             match tid {
                 $( $id => v.visit::<$t>(dims), )*
+                _ => panic!("HARNESS-BUG: unknown type id {tid}"),
+            }
+        }
+        /// only f64 Copy types
+        pub fn dispatch_bessel<V: TyVisitorCopy>(tid: usize, dims: &[usize], v: V) -> V::Out {
+            match tid {
+                $( $id => bessel_arm!($is32, $copy, v, $t, dims), )*
                 _ => panic!("HARNESS-BUG: unknown type id {tid}"),
             }
         }
